@@ -51,8 +51,6 @@ Proof. destruct ds; cbn; intros H; [eexists; split; reflexivity|lia]. Qed.
 Lemma ds_push_elem_size ds : (0 < dsize ds)%nat -> exists ds', ds_push_elem ds = Some ds' /\ dsize ds' = S (dsize ds).
 Proof. destruct ds; cbn; intros H; [eexists; split; reflexivity|lia]. Qed.
 
-Definition is_container (tk : token) : Prop := ttype tk = T_OBJECT \/ ttype tk = T_ARRAY.
-
 Section Builder.
 Variable v : js_variant.
 Variable js : bytes.
@@ -90,58 +88,74 @@ Qed.
 
 (* ---- termination: currTok grows in every iteration ---- *)
 
-Lemma bswitch_progress tk cur ds ts cur1 ds1 ts1 :
-  ttype tk <= 3 -> bswitch v js tk cur ds ts = Ok (cur1, ds1, ts1) -> cur1 = S cur.
+Lemma bswitch_cases tk cur ds ts :
+  match bswitch v js tk cur ds ts with
+  | Ok (cur1, _, _) => (ttype tk <= 3 -> cur1 = S cur) /\ (cur <= cur1 <= S cur)%nat
+  | Err _ => False
+  | Oob w => ds_is_empty ds = true
+  | OutOfFuel => False
+  end.
 Proof.
-  intros T. unfold bswitch.
-  destruct (N.eqb_spec (ttype tk) T_STRING), (N.eqb_spec (ttype tk) T_PRIM),
-    (N.eqb_spec (ttype tk) T_OBJECT), (N.eqb_spec (ttype tk) T_ARRAY); cbn [orb];
-    try (destruct (ds_top ds) as [[vb a l m]|]; [|discriminate];
-         match goal with |- context [ds_pop ?x] => destruct (ds_pop x) end; [|discriminate]);
-    try (intros E; inversion E; reflexivity).
-  unfold T_STRING, T_PRIM, T_OBJECT, T_ARRAY in *. lia.
+  unfold bswitch.
+  destruct ((ttype tk =? T_STRING) || (ttype tk =? T_PRIM)) eqn:E1.
+  - destruct ds as [[vb a l m] fs|r]; cbn [ds_top ds_is_empty]; [|reflexivity].
+    cbn [ds_set_top]. destruct fs; cbn [ds_pop]; (split; [reflexivity|lia]).
+  - destruct ((ttype tk =? T_OBJECT) || (ttype tk =? T_ARRAY)) eqn:E2; [split; [reflexivity|lia]|].
+    split; [|lia]. intros T. exfalso.
+    apply orb_false_iff in E1 as [A1 A2]. apply orb_false_iff in E2 as [A3 A4].
+    apply N.eqb_neq in A1, A2, A3, A4. unfold T_STRING, T_PRIM, T_OBJECT, T_ARRAY in *. lia.
 Qed.
 
-Lemma bkey_progress back tk1 cur1 ds2 b cur3 ds3 :
-  bkey v js t back tk1 cur1 ds2 = Ok (b, cur3, ds3) -> (cur1 <= cur3)%nat.
+Lemma bkey_cases back tk1 cur1 ds2 :
+  match bkey v js t back tk1 cur1 ds2 with
+  | Ok (_, cur3, _) => (cur1 <= cur3)%nat
+  | Err _ => False
+  | Oob w => ds_is_empty ds2 = true \/ (jv_key_overread v = false /\ tok_at t (S cur1) = None)
+  | OutOfFuel => False
+  end.
 Proof.
-  unfold bkey. destruct ((ttype back =? T_OBJECT) && is_keyish tk1).
-  - destruct (ds_push_key ds2 _); [|discriminate].
-    destruct (jv_key_overread v); [intros E; inversion E; lia|].
-    destruct (tok_at t (S cur1)); [|discriminate]. intros E; inversion E; lia.
-  - destruct ((ttype back =? T_OBJECT) && negb (jv_container_key v)); [discriminate|].
-    intros E; inversion E; lia.
+  unfold bkey. destruct ((ttype back =? T_OBJECT) && is_keyish tk1); [|lia].
+  destruct ds2 as [c fs|r]; cbn [ds_push_key ds_is_empty]; [|now left].
+  destruct (jv_key_overread v); [lia|].
+  destruct (tok_at t (S cur1)); [lia|now right].
+Qed.
+
+Lemma pop_loop_cases e : forall ts ds,
+  match pop_loop v e ts ds with
+  | Ok (ts2, ds2) => ts2 <> [] /\ (jv_container_key v = false -> ds_is_empty ds2 = false)
+  | Err _ => True
+  | Oob _ => jv_container_key v = true
+  | OutOfFuel => False
+  end.
+Proof.
+  induction ts as [|top ts' IH]; intros ds; cbn [pop_loop].
+  - destruct (jv_container_key v); [reflexivity|exact I].
+  - destruct (tend top <? e)%Z.
+    + destruct (ds_pop ds) as [ds'|]; [apply IH|]. destruct (jv_container_key v); [reflexivity|apply IH].
+    + destruct (jv_container_key v) eqn:Ec; cbn [negb andb].
+      * split; [discriminate|discriminate].
+      * destruct (ds_is_empty ds) eqn:Ee; [exact I|]. split; [discriminate|auto].
 Qed.
 
 Lemma build_fuel_enough : forall fuel cur ds ts,
   (length t - cur < fuel)%nat -> build v js t fuel cur ds ts <> OutOfFuel.
 Proof.
   induction fuel as [|fuel IH]; intros cur ds ts H; [lia|].
-  cbn [build]. unfold bmid.
+  cbn [build]. destruct (negb (jv_container_key v) && ds_is_empty ds); [discriminate|]. unfold bmid.
   destruct (tok_at t cur) as [tk|] eqn:E; [|discriminate].
   assert (Hc : (cur < length t)%nat) by (apply nth_error_Some; unfold tok_at in E; congruence).
   assert (Tk : ttype tk <= 3).
   { pose proof types_ok_t as F. rewrite Forall_forall in F. apply F. eapply nth_error_In; exact E. }
-  destruct (bswitch v js tk cur ds ts) as [[[cur1 ds1] ts1]| | |] eqn:S1; try discriminate.
-  2:{ exfalso. unfold bswitch in S1.
-      destruct ((ttype tk =? T_STRING) || (ttype tk =? T_PRIM)).
-      - destruct (ds_top ds) as [[vb a l m]|]; [|discriminate].
-        match type of S1 with context [ds_pop ?x] => destruct (ds_pop x) end; discriminate.
-      - destruct ((ttype tk =? T_OBJECT) || (ttype tk =? T_ARRAY)); discriminate. }
-  apply bswitch_progress in S1; [|exact Tk]. subst cur1.
+  pose proof (bswitch_cases tk cur ds ts) as S1.
+  destruct (bswitch v js tk cur ds ts) as [[[cur1 ds1] ts1]| | |]; try discriminate; [|contradiction].
+  destruct S1 as [S1 _]. specialize (S1 Tk). subst cur1.
   destruct (tok_at t (S cur)) as [tk1|]; [|discriminate].
   destruct ((tend tk1 =? 0)%Z || match ts1 with [] => true | _ => false end); [discriminate|].
-  destruct (pop_loop (tend tk1) ts1 ds1) as [[ts2 ds2]| | |] eqn:P; try discriminate.
-  2:{ exfalso. clear - P. revert ds1 P. induction ts1 as [|top ts' IH']; intros ds1 P; cbn in P; [discriminate|].
-      destruct (tend top <? tend tk1)%Z; [|discriminate].
-      destruct (ds_pop ds1); [eauto|discriminate]. }
+  pose proof (pop_loop_cases (tend tk1) ts1 ds1) as P.
+  destruct (pop_loop v (tend tk1) ts1 ds1) as [[ts2 ds2]| | |]; try discriminate; [|contradiction].
   destruct ts2 as [|back ts2']; [discriminate|].
-  destruct (bkey v js t back tk1 (S cur) ds2) as [[[b cur3] ds3]| | |] eqn:K; try discriminate.
-  2:{ exfalso. unfold bkey in K. destruct ((ttype back =? T_OBJECT) && is_keyish tk1).
-      - destruct (ds_push_key ds2 _); [|discriminate]. destruct (jv_key_overread v); [discriminate|].
-        destruct (tok_at t (S (S cur))); discriminate.
-      - destruct ((ttype back =? T_OBJECT) && negb (jv_container_key v)); discriminate. }
-  apply bkey_progress in K.
+  pose proof (bkey_cases back tk1 (S cur) ds2) as K.
+  destruct (bkey v js t back tk1 (S cur) ds2) as [[[b cur3] ds3]| | |]; try discriminate; [|contradiction].
   destruct b; [discriminate|].
   destruct (ttype back =? T_ARRAY).
   - destruct (ds_push_elem ds3); [|discriminate]. apply IH. lia.
@@ -152,80 +166,41 @@ Qed.
 
 Hypothesis Hkey : jv_key_overread v = false.
 Hypothesis Hcont : jv_container_key v = false.
-(* fromJSON has checked t[0].end == trimmed.length(), and no token ends later *)
-Hypothesis H0 : forall t0, nth_error toks 0 = Some t0 -> tend t0 = Z.of_nat L.
-
-Definition stack_ok (ts : list token) : Prop :=
-  Forall is_container ts /\ (ts <> [] -> tend (last ts zero_token) = Z.of_nat L).
-
-Lemma pop_loop_ok e : forall ts ds,
-  ts <> [] -> stack_ok ts -> (e <= Z.of_nat L)%Z -> dsize ds = length ts ->
-  exists ts2 ds2, pop_loop e ts ds = Ok (ts2, ds2) /\ ts2 <> [] /\ stack_ok ts2 /\ dsize ds2 = length ts2.
-Proof.
-  induction ts as [|top ts' IH]; intros ds Hne [Hc Hl] He Hs; [congruence|].
-  cbn [pop_loop]. destruct (Z.ltb_spec (tend top) e) as [Hlt|Hge].
-  - destruct ts' as [|top' ts''].
-    { specialize (Hl Hne). cbn in Hl. lia. }
-    destruct (ds_pop_size ds) as (ds' & E & S'); [rewrite Hs; cbn; lia|].
-    rewrite E. apply IH; [discriminate| |exact He|rewrite Hs in S'; cbn in *; lia].
-    split; [now inversion Hc|]. intros _. specialize (Hl Hne). exact Hl.
-  - exists (top :: ts'), ds. repeat split; auto.
-Qed.
-
-Definition loop_inv (cur : nat) (ds : dstack) (ts : list token) : Prop :=
-  (cur < length toks)%nat /\ dsize ds = S (length ts) /\ stack_ok ts /\ (ts = [] -> cur = O).
 
 Lemma build_no_oob : forall fuel cur ds ts,
-  loop_inv cur ds ts -> forall w, build v js t fuel cur ds ts <> Oob w.
+  (cur < length toks)%nat -> forall w, build v js t fuel cur ds ts <> Oob w.
 Proof.
-  induction fuel as [|fuel IH]; intros cur ds ts (Hcur & Hds & Hst & Hts0) w; [discriminate|].
-  cbn [build]. unfold bmid.
+  induction fuel as [|fuel IH]; intros cur ds ts Hcur w; [discriminate|].
+  cbn [build]. rewrite Hcont. cbn [negb andb].
+  destruct (ds_is_empty ds) eqn:Ed; [discriminate|]. unfold bmid.
   destruct (tok_at_real cur Hcur) as (tk & E & (Ty & Te)). rewrite E.
-  (* the switch *)
-  assert (SW : exists ds1 ts1, bswitch v js tk cur ds ts = Ok (S cur, ds1, ts1) /\
-                               dsize ds1 = length ts1 /\ stack_ok ts1).
-  { unfold bswitch.
-    destruct (N.eqb_spec (ttype tk) T_STRING) as [e1|n1]; [|destruct (N.eqb_spec (ttype tk) T_PRIM) as [e2|n2]]; cbn [orb].
-    1,2: destruct (ds_top_size ds) as ([vb a l m] & Et); [lia|]; rewrite Et;
-      match goal with |- context [ds_pop ?x] => destruct (ds_pop_size x) as (ds' & Ep & Sp); [rewrite ds_set_top_size; lia|] end;
-      rewrite Ep; exists ds', ts; split; [reflexivity|]; rewrite ds_set_top_size in Sp; split; [lia|exact Hst].
-    assert (Ct : is_container tk).
-    { unfold is_container, T_STRING, T_PRIM, T_OBJECT, T_ARRAY in *. lia. }
-    assert (Eo : (ttype tk =? T_OBJECT) || (ttype tk =? T_ARRAY) = true).
-    { destruct Ct as [-> | ->]; reflexivity. }
-    rewrite Eo. exists ds, (tk :: ts). split; [reflexivity|]. split; [cbn; lia|].
-    destruct Hst as [Hc Hl]. split; [now constructor|]. intros _.
-    destruct ts as [|x ts'].
-    - cbn. rewrite (Hts0 eq_refl) in E. apply H0. unfold tok_at, t in E.
-      rewrite nth_error_app1 in E by lia. exact E.
-    - change (last (tk :: x :: ts') zero_token) with (last (x :: ts') zero_token). apply Hl. discriminate. }
-  destruct SW as (ds1 & ts1 & -> & Hds1 & Hst1).
+  pose proof (bswitch_cases tk cur ds ts) as S1.
+  destruct (bswitch v js tk cur ds ts) as [[[cur1 ds1] ts1]| | |]; try discriminate; [|congruence].
+  destruct S1 as [S1 _]. specialize (S1 Ty). subst cur1.
   destruct (tok_at_le (S cur)) as (tk1 & E1); [lia|]. rewrite E1.
   destruct (Z.eqb_spec (tend tk1) 0) as [Z0|Z0]; [discriminate|]. cbn [orb].
   destruct ts1 as [|b0 ts1']; [discriminate|].
   pose proof (tok_at_nonzero _ _ E1 Z0) as Hcur1.
-  destruct (tok_at_real (S cur) Hcur1) as (tk1' & E1' & (Ty1 & Te1)). rewrite E1 in E1'. inversion E1'; subst tk1'. clear E1'.
-  destruct (pop_loop_ok (tend tk1) (b0 :: ts1') ds1) as (ts2 & ds2 & -> & Hne2 & Hst2 & Hds2);
-    [discriminate|exact Hst1|lia|exact Hds1|].
+  pose proof (pop_loop_cases (tend tk1) (b0 :: ts1') ds1) as P.
+  destruct (pop_loop v (tend tk1) (b0 :: ts1') ds1) as [[ts2 ds2]| | |]; try discriminate; [|congruence].
+  destruct P as [Pn Pd]. specialize (Pd Hcont).
   destruct ts2 as [|back ts2']; [congruence|].
-  assert (Cb : is_container back) by (destruct Hst2 as [Hc _]; now inversion Hc).
-  unfold bkey. rewrite Hkey, Hcont. cbn [negb].
-  destruct Cb as [Cb|Cb]; rewrite Cb.
-  - (* object *)
-    change (T_OBJECT =? T_OBJECT) with true. cbn [andb].
-    destruct (is_keyish tk1); [|discriminate].
-    destruct (ds_push_key_size ds2 (json_unescape (substr js (tstart tk1) (tend tk1)))) as (ds3 & -> & Hds3); [rewrite Hds2; cbn; lia|].
-    destruct (tok_at_le (S (S cur))) as (tk2 & E2); [lia|]. rewrite E2.
-    destruct (Z.eqb_spec (tend tk2) 0) as [Z2|Z2]; [discriminate|].
-    change (T_OBJECT =? T_ARRAY) with false.
-    apply IH. repeat split; try (destruct Hst2; assumption).
-    + eapply tok_at_nonzero; eauto.
-    + lia.
-    + intros; discriminate.
-  - (* array *)
-    change (T_ARRAY =? T_OBJECT) with false. cbn [andb]. change (T_ARRAY =? T_ARRAY) with true.
-    destruct (ds_push_elem_size ds2) as (ds4 & -> & Hds4); [rewrite Hds2; cbn; lia|].
-    apply IH. repeat split; try (destruct Hst2; assumption); [lia|intros; discriminate].
+  pose proof (bkey_cases back tk1 (S cur) ds2) as K.
+  destruct (tok_at_le (S (S cur))) as (tk2 & E2); [lia|].
+  destruct (bkey v js t back tk1 (S cur) ds2) as [[[b cur3] ds3]| | |] eqn:EK; try discriminate.
+  2:{ destruct K as [K|[_ K]]; congruence. }
+  destruct b; [discriminate|].
+  (* the next iteration starts at a real token *)
+  assert (Hc3 : (cur3 < length toks)%nat /\ ds_is_empty ds3 = false).
+  { unfold bkey in EK. destruct ((ttype back =? T_OBJECT) && is_keyish tk1).
+    - destruct ds2 as [c fs|r]; [|discriminate]. cbn [ds_push_key] in EK. rewrite Hkey, E2 in EK.
+      destruct (Z.eqb_spec (tend tk2) 0) as [Z2|Z2]; [discriminate|].
+      inversion EK; subst. split; [|reflexivity]. eapply tok_at_nonzero; eauto.
+    - inversion EK; subst. auto. }
+  destruct Hc3 as [Hc3 Hd3].
+  destruct (ttype back =? T_ARRAY).
+  - destruct ds3 as [c fs|r]; [|discriminate]. cbn [ds_push_elem]. now apply IH.
+  - now apply IH.
 Qed.
 
 End Builder.
@@ -269,9 +244,7 @@ Proof.
     destruct (Z.eqb_spec (tend t0) (Z.of_nat (length (c :: r)))) as [E0|E0]; cbn [negb]; [|discriminate].
     change (t0 :: toks' ++ repeat zero_token (S (n - length (t0 :: toks'))))
       with ((t0 :: toks') ++ repeat zero_token (S (n - length (t0 :: toks')))).
-    apply build_no_oob with (L := length (c :: r)); try assumption.
-    + intros t0' E. cbn in E. inversion E; subst. exact E0.
-    + repeat split; cbn; try lia; [constructor|intros; congruence].
+    apply build_no_oob with (L := length (c :: r)); try assumption. cbn [length]. lia.
 Qed.
 
 Example from_json_no_oob_nonvacuous :
